@@ -274,8 +274,25 @@ Definition reads_ok (t : text) (o : url_obs) : bool :=
    a name whose IDNA (ToASCII) form is an RFC 3986 reg-name that ToUnicode accepts.  (The stdlib codec
    does not apply the STD3 rules, so e.g. a full-width '@' or a Kelvin sign after 'xn--' encodes to
    text that is no host name; such hosts are outside "valid host".) *)
+(* host and port of a well-formed authority: the port is the decimal value of the digits after the ':' that
+   follows the reg-name or the closing bracket (absent or empty = no port); the host of an IP-literal is the
+   text between the brackets and its family is AF_INET6 (6) *)
+Definition dec_value (ds : text) : Z := fold_left (fun a c => (10 * a + Z.of_N (c - 48))%Z) ds 0%Z.
+Definition hostport_of (au : text) : text := let '(_, at_, h) := partition 64 au in if (at_ : bool) then h else au.
+Definition host_port_texts (hp : text) : text * text :=
+  match hp with
+  | 91 :: r => let '(inner, _, after) := partition 93 r in (inner, match after with 58 :: p => p | _ => [] end)
+  | _ => let '(h, _, p) := partition 58 hp in (h, p)
+  end.
+Definition port_reads (t : text) (o : url_obs) : bool :=
+  let '(_, au, _, _, _) := rfc_split t in
+  let hp := hostport_of (otx au) in
+  let '(h, p) := host_port_texts hp in
+  option_eqb Z.eqb (uo_port o) (match p with [] => None | _ => Some (dec_value p) end) &&
+  match hp with 91 :: _ => text_eqb (uo_host o) h && (uo_family o =? 6) | _ => true end.
+
 (* parse_ok: URL(t) raises nothing but URLParseError; for a well-formed reference t that parses, the components are
-   the Spec's reading of t (reads_ok) and the rendered texts are fixed points (full quoting when the host is valid,
+   the Spec's reading of t (reads_ok, port_reads) and the rendered texts are fixed points (full quoting when the host is valid,
    minimal quoting when no component contains '%') *)
 Definition parse_ok (host_valid : bool) (t : text) (r : res url_obs) (f1 f2 m1 m2 : res text) : bool :=
   match r with
@@ -283,7 +300,7 @@ Definition parse_ok (host_valid : bool) (t : text) (r : res url_obs) (f1 f2 m1 m
   | Raise _ => false
   | Ok o =>
     if wf_ref true t then
-      reads_ok t o &&
+      reads_ok t o && port_reads t o &&
       (if host_valid then
          match f1 with
          | Ok t1 => match f2 with Ok t2 => text_eqb t1 t2 | Raise _ => false end
